@@ -62,156 +62,105 @@ theorem nextT_eq (st : State) (fid : Nat) (pos : Option Nat) (h : next st fid po
           simp only [H.slots, hd]
           exact this
 
-theorem translated_sim : SimOK machineT machine SimM where
-  aliveE := by intro m m' K e h; obtain ⟨rfl, _⟩ := h; rfl
-  aliveL := by intro m m' K l h; obtain ⟨rfl, _⟩ := h; rfl
+/-- **The machine made of the translated code simulates the snapshot specification**: each of its nine primitives keeps `Sim`.
+    Eight of them ARE the model's primitives on every `Sim` state (`tie_*`); `~Emitter` is the model's or the bulk form
+    (`tie_dtorEmitter_sim`). -/
+theorem translated_sim : SimOK machineT Spec.machine Sim where
+  aliveE := fun e h => simOK.aliveE e h
+  aliveL := fun l h => simOK.aliveL l h
   connect := by
-    intro m m' K e g l x h he hl
-    obtain ⟨rfl, hK, s, Ks, hs, hm⟩ := h
-    show SimM (CallbackBody.connectT m e g l x) (connect e g l x m) K
+    intro m s K e g l x hs he hl
+    show Sim (CallbackBody.connectT m e g l x) (Spec.connect e g l x s) K
     simp only [machineT] at he hl
     obtain ⟨em, hem⟩ := Option.isSome_iff_exists.1 he
     obtain ⟨li, hli⟩ := Option.isSome_iff_exists.1 hl
     rw [tie_connectT m e g l x em li hem hli (lkeys_of_sim hs)]
-    exact ⟨rfl, hK, _, Ks, sim_connect e g l x hs he hl, hm⟩
+    exact sim_connect e g l x hs he hl
   disconnect := by
-    intro m m' K e g l x h he hl
-    obtain ⟨rfl, hK, s, Ks, hs, hm⟩ := h
-    show SimM (CallbackBody.disconnectT m e g l x) (disconnect e g l x m) K
+    intro m s K e g l x hs he hl
+    show Sim (CallbackBody.disconnectT m e g l x) (Spec.disconnect e g l x s) K
     simp only [machineT] at he hl
     obtain ⟨em, hem⟩ := Option.isSome_iff_exists.1 he
     obtain ⟨li, hli⟩ := Option.isSome_iff_exists.1 hl
     rw [tie_disconnectT m e g l x em li hem hli (lkeys_of_sim hs)]
-    exact ⟨rfl, hK, _, Ks, sim_disconnect e g l x hs he hl, hm⟩
+    exact sim_disconnect e g l x hs he hl
   delL := by
-    intro m m' K l h hl
-    obtain ⟨rfl, hK, s, Ks, hs, hm⟩ := h
-    show SimM ((CallbackBody.dtorListener m l).setListener l none) (delListener l m) K
+    intro m s K l hs hl
+    show Sim ((CallbackBody.dtorListener m l).setListener l none) (Spec.delL l s) K
     simp only [machineT] at hl
     obtain ⟨li, hli⟩ := Option.isSome_iff_exists.1 hl
     rw [tie_dtorListener m l li hli]
-    exact ⟨rfl, hK, _, Ks, sim_delL l hs hl, hm⟩
+    exact sim_delL l hs hl
   delE := by
-    intro m m' K e h he
-    obtain ⟨rfl, hK, s, Ks, hs, hm⟩ := h
-    show SimM ((CallbackBody.dtorEmitter m e).setEmitter e none) (delEmitter e m) K
+    intro m s K e hs he
     simp only [machineT] at he
     obtain ⟨em, hem⟩ := Option.isSome_iff_exists.1 he
-    rw [tie_dtorEmitter m e em hem (lkeys_of_sim hs)]
-    exact ⟨rfl, hK, _, Ks, sim_delE e hs he, hm⟩
+    exact tie_dtorEmitter_sim e em hs hem
   begin := by
-    intro m m' K e g h he
-    obtain ⟨rfl, hK, s, Ks, hs, hm⟩ := h
+    intro m s K e g hs he
     simp only [machineT] at he
     obtain ⟨em, hem⟩ := Option.isSome_iff_exists.1 he
-    have hb := sim_begin e g hs he
-    show BeginRel machine SimM K (H.pushAct (CallbackBody.ctorActivation m m.frames.length e g) m.frames.length) (actBegin e g m)
+    show BeginRel Spec.machine Sim K (H.pushAct (CallbackBody.ctorActivation m m.frames.length e g) m.frames.length) (Spec.machine.begin e g s)
     rw [tie_ctorActivation m e g em hem]
-    simp only [machine] at hb
-    rcases h1 : actBegin e g m with ⟨m1, o1⟩
-    rcases h2 : Spec.machine.begin e g s with ⟨s1, o2⟩
-    rw [h1, h2] at hb
-    cases o1 with
-    | none =>
-      cases o2 with
-      | none => exact ⟨rfl, hK, s1, Ks, hb, hm⟩
-      | some bq => exact ⟨rfl, hK, _, Ks, hb.2, hm⟩
-    | some ap =>
-      cases o2 with
-      | none => exact absurd hb (by simp [BeginRel])
-      | some bq =>
-        refine ⟨rfl, ?_, s1, (ap, bq) :: Ks, hb, by simp [hm]⟩
-        intro k hk
-        rcases List.mem_cons.1 hk with rfl | hk
-        · rfl
-        · exact hK k hk
+    exact sim_begin e g hs he
   next := by
-    intro m m' a p b q K h
-    obtain ⟨rfl, hK, s, Ks, hs, hm⟩ := h
-    have hab := hK ((a, p), (b, q)) (List.mem_cons_self ..)
-    simp only [Prod.mk.injEq] at hab
-    obtain ⟨rfl, rfl⟩ := hab
-    cases Ks with
-    | nil => simp at hm
-    | cons k Ks =>
-      obtain ⟨⟨a', p'⟩, ⟨b', q'⟩⟩ := k
-      simp only [List.map_cons, List.cons.injEq, Prod.mk.injEq] at hm
-      obtain ⟨⟨rfl, rfl⟩, hm⟩ := hm
-      have hn := sim_next hs
-      simp only [machine] at hn
-      show StepRel machineT SimM m m a' a' K (nextT m a' p') (next m a' p')
-      have hnf : next m a' p' ≠ .fault := by
-        intro hc
-        rw [hc] at hn
-        cases hsn : Spec.machine.next s b' q' <;> (rw [hsn] at hn; exact absurd hn (by simp [StepRel]))
-      rw [nextT_eq m a' p' hnf]
-      cases hc : next m a' p' with
-      | done => trivial
-      | fault => exact absurd hc hnf
-      | call l x p'' =>
-        rw [hc] at hn
-        cases hsn : Spec.machine.next s b' q' with
-        | done => rw [hsn] at hn; exact absurd hn (by simp [StepRel])
-        | fault => rw [hsn] at hn; exact absurd hn (by simp [StepRel])
-        | call l' x' q'' =>
-          rw [hsn] at hn
-          obtain ⟨_, _, hal, hs'⟩ := hn
-          refine ⟨rfl, rfl, hal, rfl, ?_, s, ((a', p''), (b', q'')) :: Ks, hs', by simp [hm]⟩
-          intro k hk
-          rcases List.mem_cons.1 hk with rfl | hk
-          · rfl
-          · exact hK k (List.mem_cons_of_mem _ hk)
+    intro m s a p b q K hs
+    have hn := sim_next hs
+    simp only [machine] at hn
+    show StepRel machineT Sim m s a b K (nextT m a p) (Spec.machine.next s b q)
+    have hnf : next m a p ≠ .fault := by
+      intro hc
+      rw [hc] at hn
+      cases hsn : Spec.machine.next s b q <;> (rw [hsn] at hn; exact absurd hn (by simp [StepRel]))
+    rw [nextT_eq m a p hnf]
+    exact hn
   finish := by
-    intro m m' a p b q K h
-    obtain ⟨rfl, hK, s, Ks, hs, hm⟩ := h
-    have hab := hK ((a, p), (b, q)) (List.mem_cons_self ..)
-    simp only [Prod.mk.injEq] at hab
-    obtain ⟨rfl, rfl⟩ := hab
-    cases Ks with
-    | nil => simp at hm
-    | cons k Ks =>
-      obtain ⟨⟨a', p'⟩, ⟨b', q'⟩⟩ := k
-      simp only [List.map_cons, List.cons.injEq, Prod.mk.injEq] at hm
-      obtain ⟨⟨rfl, rfl⟩, hm⟩ := hm
-      show SimM ((CallbackBody.dtorActivation m a').popFrame a') (actEnd a' m) K
-      have hc := hs.cur
-      have hl := hs.f.links
-      cases hfr : m.frames with
-      | nil => rw [hfr] at hc; exact absurd hc (by simp [Cursors])
-      | cons f fs =>
-        rw [hfr] at hc hl
-        obtain ⟨rfl, _⟩ := hc
-        rw [tie_dtorActivation m fs.length f fs hfr rfl (fun n hn => topOf_lt (hl.1 ▸ hn))]
-        exact ⟨rfl, fun k hk => hK k (List.mem_cons_of_mem _ hk), _, Ks, sim_finish hs, hm⟩
+    intro m s a p b q K hs
+    show Sim ((CallbackBody.dtorActivation m a).popFrame a) (Spec.machine.finish b s) K
+    have hc := hs.cur
+    have hl := hs.f.links
+    cases hfr : m.frames with
+    | nil => rw [hfr] at hc; obtain ⟨e, g⟩ := b; exact absurd hc (by simp [Cursors])
+    | cons f fs =>
+      rw [hfr] at hc hl
+      obtain ⟨e, g⟩ := b
+      obtain ⟨rfl, _⟩ := hc
+      rw [tie_dtorActivation m fs.length f fs hfr rfl (fun n hn => topOf_lt (hl.1 ▸ hn))]
+      exact sim_finish hs
 
-theorem runOps_relT (P : Prog) (fuel : Nat) (ops : List Action) {r₁ r₂ : Run State}
-    (h : RunRel SimM [] r₁ r₂) : RunRel SimM [] (runOps machineT P fuel r₁ ops) (runOps machine P fuel r₂ ops) := by
+theorem runOps_relT (P : Prog) (fuel : Nat) (ops : List Action) {r₁ : Run State} {r₂ : Run SState}
+    (h : RunRel Sim [] r₁ r₂) : RunRel Sim [] (runOps machineT P fuel r₁ ops) (runOps Spec.machine P fuel r₂ ops) := by
   induction ops generalizing r₁ r₂ with
   | nil => exact h
   | cons a as ih =>
     exact ih ((exec_sim translated_sim P fuel).1 [] [a] r₁ r₂ h)
 
-/-- **The translated code runs as the model.**  For every program (scripts of connect / disconnect / emit / destroy /
-    re-create, arbitrarily nested), every numbers of objects, every history of top-level actions and every fuel: the evaluator
-    over the machine made of the bodies translated from the current Callback.cpp / Callback.hpp reaches the same state, writes
-    the same log, and is never flagged — it IS the run of the hand-written model, about which the theorems of Props.lean speak. -/
-theorem translated_code_runs_as_model (P : Prog) (ne nl fuel : Nat) (ops : List Action) :
-    (runOps machineT P fuel (Run.init State.fresh ne nl) ops).m = (runOps machine P fuel (Run.init State.fresh ne nl) ops).m ∧
-    (runOps machineT P fuel (Run.init State.fresh ne nl) ops).log = (runOps machine P fuel (Run.init State.fresh ne nl) ops).log ∧
-    (runOps machineT P fuel (Run.init State.fresh ne nl) ops).bad = false ∧
-    ((runOps machine P fuel (Run.init State.fresh ne nl) ops).oof = false →
-      (runOps machineT P fuel (Run.init State.fresh ne nl) ops).oof = false) := by
-  have h0 : RunRel SimM [] (Run.init State.fresh ne nl) (Run.init State.fresh ne nl) :=
-    ⟨⟨rfl, fun k hk => by simp at hk, SState.fresh, [], sim_init, rfl⟩, ⟨rfl, rfl, rfl, rfl, rfl⟩, rfl, rfl, rfl, rfl, fun hh => hh⟩
-  have h := runOps_relT P fuel ops h0
-  exact ⟨h.sim.1, h.log, h.bad₁, h.oof⟩
-
-/-- … and therefore refines the snapshot specification: the log of the translated code is the log of the specification -/
+/-- **The translated code refines the snapshot specification**, for every program (scripts of connect / disconnect / emit /
+    destroy / re-create, arbitrarily nested), every numbers of objects, every history and every fuel: same log (slot invocations
+    with arguments, start and return of every `emit`), never flagged, no fault, and the final state is related by `Sim` to the
+    specification's — so it passes the audit of `no_dangling`, no activation is left and every slot list is clean. -/
 theorem translated_code_refines_spec (P : Prog) (ne nl fuel : Nat) (ops : List Action) :
     (runOps machineT P fuel (Run.init State.fresh ne nl) ops).log =
-      (runOps Spec.machine P fuel (Run.init SState.fresh ne nl) ops).log := by
-  rw [(translated_code_runs_as_model P ne nl fuel ops).2.1]
-  exact (runOps_rel P fuel ops (init_rel ne nl)).log
+      (runOps Spec.machine P fuel (Run.init SState.fresh ne nl) ops).log ∧
+    (runOps machineT P fuel (Run.init State.fresh ne nl) ops).bad = false ∧
+    (runOps machineT P fuel (Run.init State.fresh ne nl) ops).m.fault = false ∧
+    Sim (runOps machineT P fuel (Run.init State.fresh ne nl) ops).m (runOps Spec.machine P fuel (Run.init SState.fresh ne nl) ops).m [] ∧
+    Audit (runOps machineT P fuel (Run.init State.fresh ne nl) ops).m := by
+  have h := runOps_relT P fuel ops (init_rel ne nl)
+  exact ⟨h.log, h.bad₁, h.sim.nofault, h.sim, audit_of_sim h.sim⟩
+
+/-- **The translated code runs as the model**: the same log as the hand-written model, and both final states are related by `Sim`
+    to the SAME specification state — so the emitter side is, list by list, the specification's live list in both, the listener
+    side holds the same pairs in both (`BInv.count`), the same objects exist; what `Sim` does not fix is which keys with an empty
+    list a listener's map still holds (the model's `~Emitter` keeps them, the bulk form of C12-h5 drops them). -/
+theorem translated_code_runs_as_model (P : Prog) (ne nl fuel : Nat) (ops : List Action) :
+    (runOps machineT P fuel (Run.init State.fresh ne nl) ops).log = (runOps machine P fuel (Run.init State.fresh ne nl) ops).log ∧
+    (runOps machineT P fuel (Run.init State.fresh ne nl) ops).bad = false ∧
+    ∃ s, Sim (runOps machineT P fuel (Run.init State.fresh ne nl) ops).m s [] ∧
+         Sim (runOps machine P fuel (Run.init State.fresh ne nl) ops).m s [] := by
+  have h := runOps_relT P fuel ops (init_rel ne nl)
+  have h' := runOps_rel P fuel ops (init_rel ne nl)
+  exact ⟨h.log.trans h'.log.symm, h.bad₁, _, h.sim, h'.sim⟩
 
 /-! ### non-vacuity: the translated machine computes — the D18 program (a slot disconnects, re-connects and disconnects itself,
     connects another listener, re-emits and destroys that listener), a re-creation and the destruction of the emitter -/
